@@ -290,6 +290,10 @@ def rule_D3(ctx):
                         isinstance(x.value, ast.Constant) and x.value.value is False for x in rets):
                     ok = True
         if not conv:
+            deleg = [n for n in own_walk(eq.node) if isinstance(n, ast.Call) and isinstance(n.func, ast.Attribute) and n.func.attr == '__eq__']
+            if deleg:
+                r.ok(f'{c}.__eq__ delegates', reason=True)
+                continue
             raise AnalysisError(f'{eq.key}: promotion call not recognised')
         if not ok:
             r.fail(eq.key, f'{c}.__eq__ promotion', "comparison with a non-promotable type (int, float, None, object()) lets the "
@@ -333,7 +337,9 @@ def rule_HASH(ctx):
     r = RuleResult('HASH', 'hashability by class (MRO incl. implicit __hash__ = None) and NotImplemented ordering')
     for c in FAMILY:
         kind, p = m.lookup(c, '__hash__')
-        hashable = kind == 'method'
+        hashable = kind == 'method' or (kind == 'attr' and not (isinstance(p, ast.Constant) and p.value is None))
+        if kind == 'attr' and hashable:
+            p = [type('F', (), {'key': ast.unparse(p)})()]
         if c in MUTABLE and hashable:
             r.fail(f'{m.classes[c].mod}:{c}', f'{c}.__hash__', f'{c} is mutable but resolves __hash__ to {p[0].key}: usable as a dict key while it can change',
                    loc=f'bitstring/{m.classes[c].mod}.py')
